@@ -140,6 +140,7 @@ func unmarshalLoopSpec(c *Ctx, ord int, loop ast.Stmt) *LoopSpec {
 
 type unmarshalOpts struct {
 	safety, provenance, unknown bool
+	functional                  bool // C03: per-case FromWire contracts
 }
 
 func unmarshalUnit(prog *Program, ms *MsgSchema, o unmarshalOpts) (u *Unit) {
@@ -169,6 +170,14 @@ func unmarshalUnit(prog *Program, ms *MsgSchema, o unmarshalOpts) (u *Unit) {
 	x := PtrV{Ref: xref, Named: ms.Named}
 	c.loadStruct(st, x) // entry heap components exist before the snapshot
 	c.loopSpecFor = unmarshalLoopSpec
+	var dec *decEngine
+	if o.functional {
+		dec = &decEngine{c: c, ms: ms, x: x, u: u}
+		c.loopSpecFor = dec.loopSpec
+		c.onCase = dec.onCase
+		c.caseExitAll = true
+		c.onCaseExit = dec.onCaseExit
+	}
 	var unknownStores int
 	var grounds []Ground
 	optionsFromInput := map[types.Object]bool{}
@@ -222,6 +231,11 @@ func unmarshalUnit(prog *Program, ms *MsgSchema, o unmarshalOpts) (u *Unit) {
 					grounds = append(grounds, rep)
 				}
 				if p, ok := m.(PtrV); ok {
+					if dec != nil {
+						if bs, ok := b.(SliceV); ok {
+							dec.calls = append(dec.calls, decCall{off: bs.Off, ln: bs.Len, target: p.Ref, guard: st.guard, pos: call.Pos()})
+						}
+					}
 					c.oblige(st, "requires@call", c.pos(call.Pos()), "(not (= "+p.Ref+" 0))", "options.Unmarshal needs a non-nil target message")
 					if p.Struct() != nil {
 						c.havocObject(st, p)
@@ -257,6 +271,14 @@ func unmarshalUnit(prog *Program, ms *MsgSchema, o unmarshalOpts) (u *Unit) {
 			}
 		}()
 	}
+	// message values are finite and acyclic: a sub-message of the message's own type is not the message itself
+	for _, f := range ms.Fields {
+		if f.Kind == "message" && !f.Rep && !f.IsMap && f.Oneof == nil && f.Msg != nil && f.Msg.Obj() == ms.Named.Obj() {
+			if p, ok := c.loadField(st, x, f.GoName).(PtrV); ok {
+				st.guard = c.defRaw("g", "Bool", and(st.guard, not("(= "+p.Ref+" "+x.Ref+")")))
+			}
+		}
+	}
 	entry := st.clone()
 	c.entry = entry
 	c.addObl(Obl{Name: u.Name + "/cover[entry]", Kind: "cover", Guard: "true", Goal: "true", Expect: "sat", Text: "entry assumptions are satisfiable"})
@@ -269,7 +291,7 @@ func unmarshalUnit(prog *Program, ms *MsgSchema, o unmarshalOpts) (u *Unit) {
 		// keep only what the requested property needs
 		var keep []*Obl
 		for _, ob := range c.obls {
-			if !(strings.HasPrefix(ob.Kind, "safe.") || strings.HasPrefix(ob.Kind, "loop.") || ob.Kind == "unwind" || ob.Kind == "requires@call") {
+			if !(strings.HasPrefix(ob.Kind, "safe.") || strings.HasPrefix(ob.Kind, "loop.") || ob.Kind == "unwind" || ob.Kind == "requires@call") || (o.functional && ob.Kind == "loop.post") {
 				keep = append(keep, ob)
 			}
 		}
